@@ -4,7 +4,7 @@
    every valid input, not only "for every input on which the model returns Ok". *)
 From Coq Require Import List Arith Bool.
 From AV Require Import Base.Util Spec.Lang Spec.FA Spec.Minimal Model.Minimize Model.Hopcroft
-                       Proofs.FARun Proofs.Moore Proofs.Minimize Proofs.Hopcroft.
+                       Proofs.FARun Proofs.Moore Proofs.Minimize Proofs.Hopcroft Proofs.HopcroftCoded.
 Import ListNotations.
 
 (* ---- the refinement, on any deterministic system (X, step, fin) over a state list Q
@@ -228,6 +228,37 @@ Proof.
 Qed.
 Print Assumptions C05_hopcroft_partition.
 
+(* _minify entirely as coded (selection, Hopcroft refinement under any schedule, back_map, names =
+   positions in get_sets(), representative = any member `rep` picks, rows filtered through back_map,
+   empty_language when only the trap's class remains, allow_partial from the row lengths): it never
+   fails (no KeyError of back_map[...] / transitions[...], no fuel), and its result is isomorphic to
+   the specification model's - same alphabet, same language as the source, same number of states as
+   the specification model's minimal automaton, minimal among the automata of its own kind *)
+Theorem C05_coded_minify : forall m sched sord rep, valid_dfa m = true ->
+  (forall a, In a sord <-> In a (d_syms m)) -> (forall l, l <> [] -> In (rep l) l) ->
+  exists R P R0, cminify_full m sched sord rep = Ok (R, P) /\ minify m = Ok R0 /\
+    d_syms R = d_syms m /\ L_dfa R =L L_dfa m /\ size R = size R0 /\
+    (complete R -> minimal_complete R) /\ (~ complete R -> minimal_partial R).
+Proof. exact cminify_full_ok. Qed.
+Print Assumptions C05_coded_minify.
+
+Theorem C05_coded_to_partial_min : forall m sched sord rep, valid_dfa m = true ->
+  (forall a, In a sord <-> In a (d_syms m)) -> (forall l, l <> [] -> In (rep l) l) ->
+  exists R P R0, cto_partial_min_full m sched sord rep = Ok (R, P) /\ to_partial_min m = Ok R0 /\
+    d_syms R = d_syms m /\ L_dfa R =L L_dfa m /\ size R = size R0 /\
+    (complete R -> minimal_complete R) /\ (~ complete R -> minimal_partial R).
+Proof. exact cto_partial_min_full_ok. Qed.
+Print Assumptions C05_coded_to_partial_min.
+
+(* not proved for the coded construction (it is for the specification model: C05_minify_valid): that
+   the record it returns passes valid_dfa (duplicate-free keys, rows complete when allow_partial is
+   false, ...).  The harness checks it on every generated case (prop 5 op 4 on the implementation's
+   result and comparison with the coded model's result). *)
+Definition C05_coded_minify_valid_statement : Prop :=
+  forall m sched sord rep R P, valid_dfa m = true ->
+  (forall a, In a sord <-> In a (d_syms m)) -> (forall l, l <> [] -> In (rep l) l) ->
+  cminify_full m sched sord rep = Ok (R, P) -> valid_dfa R = true.
+
 (* ---- non-vacuity ---- *)
 (* the section-8 reproducer: a kept state has an explicit edge into a dropped (dead) state *)
 Example C05_example_dead_edge :
@@ -247,4 +278,14 @@ Proof. vm_compute. repeat split. Qed.
 Example C05_example_empty :
   let m := mkdfa [0;1] [0] [(0,[(0,1)]); (1,[])] 0 [] true in
   valid_dfa m = true /\ minify_full m = Ok (empty_language [0], []).
+Proof. vm_compute. repeat split. Qed.
+
+(* the Hopcroft mirror on the section-8 reproducer, two schedules (oldest pending id first / newest first) and both
+   symbol orders: the same partition; _minify as coded: names are positions in get_sets() *)
+Example C05_example_hopcroft :
+  let m := mkdfa [0;1;2;3] [0;1] [(0,[(0,3);(1,1)]); (1,[(0,3);(1,2)]); (2,[]); (3,[(0,1);(1,3)])] 0 [3] true in
+  hminify_full m (fun _ W => hd 0 W) [0;1] = minify_full m /\
+  hminify_full m (fun _ W => last W 0) [1;0] = minify_full m /\
+  cminify_full m (fun _ W => hd 0 W) [0;1] (fun l => hd 0 l) =
+    Ok (mkdfa [1;2;3] [0;1] [(1,[(0,3);(1,1)]); (2,[(0,1);(1,3)]); (3,[(0,1)])] 2 [1] true, [[3];[0];[1]]).
 Proof. vm_compute. repeat split. Qed.
